@@ -2,6 +2,7 @@
 
 use std::rc::Rc;
 
+use super::unifiable::Unifiable;
 use super::substitution_set::*;
 use super::built_in_predicates::*;
 
@@ -40,9 +41,21 @@ pub fn next_solution_print<'a>(bip: BuiltInPredicate,
     if let Some(terms) = bip.terms {
         // Collect ground terms into v.
         for term in terms {
+            // Show the bound value, including the values of
+            // variables inside a list or a complex term.
             match get_ground_term(&term, &ss) {
-                Some(ground_term) => { v.push(format!("{}", ground_term)); },
-                None              => { v.push(format!("{}", term)); },
+                Some(ground_term) => {
+                    match ground_term {
+                        Unifiable::SComplex(_) |
+                        Unifiable::SLinkedList{term: _, next: _,
+                                               count: _, tail_var: _} => {
+                            let t = ground_term.replace_variables(&ss);
+                            v.push(format!("{}", t));
+                        },
+                        _ => { v.push(format!("{}", ground_term)); },
+                    }
+                },
+                None => { v.push(format!("{}", term)); },
             }
         }
         print!("{}", format_for_print_pred(&v));
